@@ -44,6 +44,7 @@ class Side:
         self.fc = None
         self.on_query = None     # callable(kind, path, result)
         self.behaviour = None    # {sid: value} appended to the function's result (C06: behaviour of a version)
+        self.raised = []         # exception objects raised by user code, in order
 
 
 def _fc(side, name):
@@ -89,10 +90,18 @@ def truthy(r):
     return bool(r)
 
 
+def _boom(side):
+    e = Boom()
+    side.raised.append(e)
+    return e
+
+
 def _crash_here(side, sid, pos):
     c = side.crash
     if c is not None and c[0] == sid and c[1] == pos:
-        raise Crash()
+        e = Crash()
+        side.raised.append(e)
+        raise e
 
 
 def run_body(b, body, side, sid='r'):
@@ -118,11 +127,11 @@ def run_body(b, body, side, sid='r'):
             r = do_query(b, side, st[1][1], w.p(st[1][2]))
             out.append(r)
             if truthy(r):
-                raise Boom()
+                raise _boom(side)
         else:
             raise ValueError(tag)
         if side.probe is not None:
-            side.probe(b, cid_)
+            side.probe(b, cid_ + ':done')
     _crash_here(side, sid, len(body))
     return out
 
@@ -148,9 +157,13 @@ def _do_bf(b, st, side, sid):
 
     def f(b2, fn, *args):
         side.calls.append(sid)
+        if side.probe is not None:
+            side.probe(b2, sid + ':start')
         r = run_body(b2, body, side, sid)
+        if side.probe is not None and body:
+            side.probe(b2, sid + ':after-body')
         if mode == 'raise_before':
-            raise Boom()
+            raise _boom(side)
         c = content
         if opts.get('copy'):
             # the output's content is the content of an input (read through the builder)
@@ -160,8 +173,10 @@ def _do_bf(b, st, side, sid):
                 c = got
         if mode != 'no_create':
             w.user_write(side.fs, fn, c)
+            if side.probe is not None:
+                side.probe(b2, sid + ':written')
         if mode == 'raise_after':
-            raise Boom()
+            raise _boom(side)
         if mode == 'nonjson':
             return NotJson()
         if side.behaviour is not None:
@@ -188,7 +203,7 @@ def _do_sb(b, st, side, sid):
         side.calls.append(sid)
         r = run_body(b2, body, side, sid)
         if mode == 'raise':
-            raise Boom()
+            raise _boom(side)
         if side.behaviour is not None:
             r.append(side.behaviour[sid])
         return r
